@@ -293,11 +293,12 @@ func (c *GroupCoordinator) Heartbeat(ctx context.Context, req *kmsg.HeartbeatReq
 		c.mu.Unlock()
 		return mkResp(protocol.ILLEGAL_GENERATION)
 	}
+	// a heartbeat from a current member keeps its session alive in every phase, also while the group rebalances
+	member.lastHeartbeat = time.Now()
 	if state.state != groupStateStable {
 		c.mu.Unlock()
 		return mkResp(protocol.REBALANCE_IN_PROGRESS)
 	}
-	member.lastHeartbeat = time.Now()
 	resp := mkResp(protocol.NONE)
 	if err := c.persistGroupLocked(ctx, req.Group, state); err != nil {
 		resp.ErrorCode = protocol.UNKNOWN_SERVER_ERROR
